@@ -89,7 +89,10 @@ def run(ctx):
             ctx.fail(case, 'the global random generator state differs after a seeded call')
         # ---- repeating the call (same process, after an unrelated call)
         try:
+            # (unrelated calls that differ from this one in options a shared cache could be keyed on too coarsely)
             run_plain(['zz-1', 'q'], {})
+            run_plain(['a b', 'c d.e'], dict({k: v for k, v in opts.items() if k in ('dialect', 'extra_letters')},
+                                             full_escape=not opts.get('full_escape', False)))
             again, _, _ = run_plain(list(arg), opts, size, seed)
         except Exception as e:
             ctx.fail(case, 'second call raised %s' % type(e).__name__)
@@ -151,6 +154,24 @@ def run(ctx):
         if got != base:
             ctx.fail(dict(case, as_dict=repr(dict(cntz))[:2000]),
                      'a frequency dictionary with zero-count entries gives %r, the list gave %r' % (got, base))
+        # ---- Series forms (pdextract takes the distinct non-null values, default options): object column with
+        #      nulls, and a categorical column that still declares categories no row uses (a filtered subset)
+        if it % 4 == 1 and arg:
+            import pandas as pd
+            import tdda.rexpy.rexpy as rx
+            try:
+                want, _, _ = run_plain(list(dict.fromkeys(arg)), {})
+                ser = pd.Series(list(arg) + [None], dtype=object)
+                extra_cats = [z for z in (R.gen_string(rng) for _ in range(2)) if z is not None and z not in arg]
+                cat = pd.Series(pd.Categorical(list(arg), categories=list(dict.fromkeys(arg)) + extra_cats))
+                for form, sr in (('object Series with a null', ser), ('categorical Series with unused categories', cat)):
+                    got = rx.pdextract(sr)
+                    ctx.bump('series_form')
+                    if list(got) != list(want):
+                        ctx.fail(dict(case, series_form=form, unused_categories=repr(extra_cats)),
+                                 'pdextract of the %s gives %r, the list of its values gives %r' % (form, got, want))
+            except Exception as e:
+                ctx.fail(case, 'Series form raised %s: %s' % (type(e).__name__, str(e)[:200]))
         # ---- repeating an example changes nothing
         if arg:
             more = list(arg) + [rng.choice(arg)] * rng.choice([1, 2, 7])
